@@ -42,6 +42,16 @@ theorem local_once (cfg : Local.Cfg) (hr : cfg.recheck = true) (ha : cfg.atomicL
     hI.calls, hI.ids.1, fun t t' h h' => hI.lk.mutex h h',
     fun t h => ⟨hI.lk.sel t (Local.usesLock_of_inCS h), hI.lk.holds t h⟩, hI.lk.only⟩
 
+/-- … and likewise for every later attempt in the same process (a fresh upload object, while
+`_state` already holds the lock object `l` created by an earlier attempt). -/
+theorem local_once_later_attempt (cfg : Local.Cfg) (hr : cfg.recheck = true) (ha : cfg.atomicLock = true)
+    (l : Nat) (sched : List Nat) : Local.Once (Local.runFrom cfg (Local.initWithLock l) sched) := by
+  have hI := Local.runFrom_inv cfg hr ha sched _
+    (Local.inv_fresh cfg (Local.initWithLock l) ⟨rfl, rfl, rfl, fun _ => rfl, fun _ => rfl⟩)
+  exact ⟨⟨hI.ids.2.2, hI.count⟩, fun t h => by have := hI.pcs t; rw [h] at this; exact this,
+    hI.calls, hI.ids.1, fun t t' h h' => hI.lk.mutex h h',
+    fun t h => ⟨hI.lk.sel t (Local.usesLock_of_inCS h), hI.lk.holds t h⟩, hI.lk.only⟩
+
 /-- A thread that has returned did its job: exactly one upload exists and its own
 `upload_part(part)` / `complete_multipart_upload` call under that id is in the log. -/
 theorem local_done_uploaded (cfg : Local.Cfg) (hr : cfg.recheck = true) (ha : cfg.atomicLock = true)
@@ -127,6 +137,14 @@ theorem dist_once (cfg : Dist.Cfg) (sched : List Nat) (hd : (Dist.run cfg sched)
   have hI : Dist.Inv cfg (Dist.run cfg sched) := Dist.runFrom_inv cfg sched _ (Dist.inv_init cfg) hd
   exact ⟨⟨hI.ids.creates_le, hI.count⟩, fun t h => by have := hI.pcs t; rw [h] at this; exact this,
     hI.calls, ⟨hI.ids.wid_range, hI.ids.var_range⟩, fun t => (hI.mutex t).symm⟩
+
+/-- An attempt on a scheduler on which an earlier attempt for the same object left anything
+in the shared variable (e.g. the id of an upload that was never finalised) starts, after
+`prep_client`, exactly like the first one: `dist_once` applies to it. -/
+theorem dist_once_after_prep (cfg : Dist.Cfg) (leftover : Option Nat) (sched : List Nat)
+    (hd : (Dist.runFrom cfg (Dist.initAfterPrep leftover) sched).deleted = false) :
+    Dist.Once (Dist.runFrom cfg (Dist.initAfterPrep leftover) sched) :=
+  dist_once cfg sched hd
 
 /-- With writers only the side condition is void: the variable is never deleted. -/
 theorem dist_once_writers (cfg : Dist.Cfg) (hk : ∀ t, cfg.kind t ≠ .fin) (sched : List Nat) :
